@@ -260,6 +260,7 @@ func (w *world) exec(i int, op *Op) stepRec {
 	if w.mon.trace {
 		fmt.Printf("  [%s] op %d %s ...", w.tag, i, op)
 	}
+	before := w.last[op.Obj]
 	rec.raw = w.issue(op)
 	if w.mon.trace {
 		fmt.Printf(" -> %s\n", rec.raw)
@@ -267,7 +268,11 @@ func (w *world) exec(i int, op *Op) stepRec {
 	rec.log = w.call("takeLog")
 	if conv := w.call("takeConv"); conv != "" && w.spec {
 		// legitimate only where the operation converts an object *value* (ToNumber for typed-array elements / array length)
-		if !((op.Op == "set" || op.Op == "define") && op.Val != "" && (isObjectValue(op.Val) || op.Val == "E1")) {
+		legit := (op.Op == "set" || op.Op == "define") && op.Val != "" && (isObjectValue(op.Val) || op.Val == "E1")
+		if quarantine[qErrMsgConv] && (op.Op == "delete" || op.Op == "setProto" || op.Key == "__proto__") {
+			legit = true // listed finding: error messages of failing delete / setPrototypeOf stringify the object
+		}
+		if !legit {
 			w.stop("unexpected-conversion", "op %d %s -> %s called user-visible conversion methods: %s (no step of this operation converts an object to a primitive)", i, op, rec.raw, conv)
 		}
 	}
@@ -304,6 +309,10 @@ func (w *world) exec(i int, op *Op) stepRec {
 	}
 	for _, n := range touched {
 		rec.dumps[n] = w.observe(n, op.Key)
+	}
+	switch op.Op {
+	case "preventExtensions", "seal", "freeze":
+		w.integrityKeepsValues(op, before, rec.dumps[op.Obj])
 	}
 	if (i+1)%8 == 0 {
 		w.checkpoint()
@@ -373,4 +382,28 @@ func sortDump(d string) string {
 	recs := strings.Split(parts[2], ";")
 	sort.Strings(recs)
 	return parts[0] + "|" + parts[1] + "|" + strings.Join(recs, ";")
+}
+
+// integrityKeepsValues: preventExtensions / seal / freeze change attributes and extensibility only — every property
+// present before and after keeps its value (data) or its functions (accessor), whether or not the op succeeded.
+func (w *world) integrityKeepsValues(op *Op, before, after string) {
+	pb, ok1 := parseDump(before)
+	pa, ok2 := parseDump(after)
+	if !ok1 || !ok2 {
+		return
+	}
+	w.mon.st.Inc("integrity_value_checks")
+	now := map[string]propObs{}
+	for _, p := range pa.props {
+		now[p.key] = p
+	}
+	for _, p := range pb.props {
+		q, present := now[p.key]
+		if !present {
+			w.stop("integrity-op-removed-key", "op %d %s removed own key %s\n  before: %s\n  after:  %s", w.opIndex, op, p.key, before, after)
+		}
+		if p.accessor == q.accessor && p.value != q.value {
+			w.stop("integrity-op-changed-value", "op %d %s changed the value of %s from %s to %s (SetIntegrityLevel only changes attributes)\n  before: %s\n  after:  %s", w.opIndex, op, p.key, p.value, q.value, before, after)
+		}
+	}
 }
